@@ -20,9 +20,9 @@ if [ ! -d $WT ]; then git -C /repo worktree add -q --detach $WT HEAD || exit 2; 
 git -C $WT checkout -q -- . && git -C $WT clean -fdq
 if [ "$PATCH" != "none" ]; then git -C $WT apply "$PATCH" || { echo "patch does not apply"; exit 2; }; fi
 mkdir -p $H && rsync -a --delete --exclude target /verif/harness/ $H/
-sed -i "s#/repo/#$WT/#g" $H/vprop/Cargo.toml
+sed -i "s#/repo/#$WT/#g" $H/vprop/Cargo.toml $H/netsim/Cargo.toml
 sed -i "s#^target-dir.*#target-dir = \"$TGT\"#" $H/.cargo/config.toml
-(cd $H && CARGO_NET_OFFLINE=true CARGO_TARGET_DIR=$TGT cargo build --offline -p vprop --bin $id 2>&1 | tail -3) || exit 2
+(cd $H && CARGO_NET_OFFLINE=true CARGO_TARGET_DIR=$TGT cargo build --offline --bin $id 2>&1 | tail -3) || exit 2
 [ -x $TGT/debug/$id ] || { echo "build failed"; exit 2; }
 cd /verif && $TGT/debug/$id --no-evidence "$@"
 rc=$?
